@@ -350,13 +350,13 @@ REGISTRY["C09"] = {
 
 REGISTRY["C20"] = {
     "engine": "mir",
-    "technique": "symbolic execution of the MIR of Config::generate_config_messages into SMT (z3 + cvc5), listener loop unrolled, rustc's overflow checks as obligations",
-    "level_text": "The real compiled MIR of generate_config_messages is unrolled (TCP-listener loop 300 times quick / 600 thorough, symbolic list length through the uninterpreted Iterator::next results) and z3 and cvc5 both decide that none of the `count += 1` overflow checks can fail, i.e. the CONFIG-n ids stay strictly increasing and therefore distinct. Bounded: up to N TCP listeners and no other entry kind.",
+    "technique": "symbolic execution of the MIR of Config::generate_config_messages and ConfigBuilder::populate_clusters into SMT (z3 + cvc5): listener loop unrolled with rustc's overflow checks as obligations; per-iteration emit-exactly-once and record-what-you-create obligations",
+    "level_text": "The real compiled MIR of generate_config_messages is unrolled (TCP-listener loop 300 times quick / 600 thorough, symbolic list length through the uninterpreted Iterator::next results) and z3 and cvc5 both decide that none of the `count += 1` overflow checks can fail, i.e. the CONFIG-n ids stay strictly increasing and therefore distinct. Bounded: up to N TCP listeners and no other entry kind. For one iteration of every loop of generate_config_messages the solvers decide that a yielded item is pushed exactly once with one counter increment (nothing dropped, nothing duplicated); for populate_clusters that a default listener is created only for an address known_addresses lacks and is then recorded there under the protocol it was created for.",
     "level_note": "TOML parsing, defaults, 'exactly what the file declares', idempotent reload and the load-time constraint checks are string/container transformations through toml/serde and are outside the claim. Other list kinds share the same counter and increment statement shape but are unrolled 0 times.",
-    "rule": "C20: one obligation (id counter).",
+    "rule": "C20: id counter + per-iteration emission + default-listener bookkeeping.",
     "trusted_base": [],
     "assumptions": ["Iterator::next on a slice iterator returns Some for as many iterations as the solver likes (list length symbolic, up to the unrolling bound)"],
-    "residual": "declared == loaded (toml/serde), constraint-violating neighbours rejected at load time, reload idempotence, lists other than tcp_listeners, more than 600 entries.",
+    "residual": "declared == loaded (toml/serde), what Cluster::generate_requests yields, constraint-violating neighbours rejected at load time, reload idempotence, counter range for lists other than the three unrolled, more than 600 entries.",
     "obligations": [
         M("c20_message_ids_do_not_wrap_tcp_add", "AddTcpListener loop unrolled 300x (thorough 600x), other loops 0x; list length symbolic",
           "no `count += 1` overflow check can fail: message ids CONFIG-0..n are strictly increasing, hence unique", ["command/src/config.rs"], prop="c20", unroll=300, unroll_thorough=600, loop_type="TcpListenerConfig", loop_ordinal=0),
@@ -364,6 +364,8 @@ REGISTRY["C20"] = {
           "same, for HTTP listeners", ["command/src/config.rs"], prop="c20", unroll=300, unroll_thorough=600, loop_type="HttpListenerConfig", loop_ordinal=0),
         M("c20_message_ids_do_not_wrap_tcp_activate", "ActivateListener(tcp) loop unrolled 300x (thorough 600x), other loops 0x",
           "same, for the activation messages", ["command/src/config.rs"], prop="c20", unroll=300, unroll_thorough=600, loop_type="TcpListenerConfig", loop_ordinal=1),
+        M("c20_every_item_emitted_once", "whole generate_config_messages, first iteration of each of its loops, iterators uninterpreted", "an item the loop yields is pushed exactly once, with exactly one counter increment; push sites in MIR == push sites in the source", ["command/src/config.rs"], prop="c20", which="emitted"),
+        M("c20_default_listener_recorded", "whole ConfigBuilder::populate_clusters (HTTP and TCP frontend loops, first iteration), map calls uninterpreted", "push_{tls,http,tcp}_listener only when known_addresses.get answered None; after an Ok the address is inserted into known_addresses with the protocol of the listener created", ["command/src/config.rs"], prop="c20", which="listeners"),
     ],
 }
 
@@ -428,15 +430,18 @@ REGISTRY["C12"] = {
 
 REGISTRY["C16"] = {
     "engine": "mir",
-    "technique": "symbolic execution of the MIR of SessionManager::check_limits / incr / decr into SMT (z3 + cvc5)",
+    "technique": "symbolic execution of the MIR of SessionManager::check_limits / incr / decr, the per-(cluster, ip) limit functions and their two call sites into SMT (z3 + cvc5)",
     "level_text": "z3 and cvc5 both decide that check_limits returns true exactly when nb_connections < max_connections and the slab is not at capacity, and closes the accept gate on every refusal; that incr called under the caller protocol (check_limits returned true) adds exactly one and can neither overflow nor trip its hard assert, so nb_connections <= max_connections is preserved; and that decr from 1 <= nb <= max <= 2^20 subtracts exactly one, cannot underflow or overflow, and re-opens accepting exactly when the gate was closed and the new count is below 90 % of the maximum. Inductive single steps.",
-    "level_note": "Only the admission arithmetic. Per-(cluster, IP) tracking (nested HashMaps + HashSet), slab entry removal on teardown, pooled buffers, timers, zombie reaping, accept queue and gauges are container/IO state and are outside the claim.",
+    "level_note": "The admission arithmetic, and for the per-(cluster, IP) limit the protocol around the nested maps (map calls uninterpreted): track_cluster_ip records every call in the reverse index and counts a triple exactly once; cluster_ip_at_limit is false for limit 0 / an already tracked token and otherwise `count >= limit` with limit = override.unwrap_or(global); both call sites (Router::connect, TcpSession::connect_to_backend) do backend work only after a `false` answer and after tracking, and return Err on `true`. The maps as data (untrack_all_cluster_ip decrements, entry reaping), slab entry removal on teardown, pooled buffers, timers, zombie reaping, accept queue and gauges are container/IO state and are outside the claim.",
     "rule": "C16: admission step obligations.",
     "trusted_base": ["field indices parsed from lib/src/server.rs (struct SessionManager)"],
     "assumptions": ["at_capacity() is an arbitrary boolean", "max_connections <= 2^20 for the 90 % threshold multiplication"],
-    "residual": "everything but the global connection counter: per-IP limits, session table, buffers, timers, gauges, accept queue.",
+    "residual": "untrack_all_cluster_ip and the contents of the per-IP maps over histories, session table, buffers, timers, gauges, accept queue.",
     "obligations": [
         M("c16_check_limits_gate", "arbitrary (nb_connections, max_connections, at_capacity)", "true <=> nb < max && !at_capacity; a refusal always clears can_accept; nothing else is written", SV, prop="c16", which="check_limits"),
         M("c16_incr_decr_step", "incr under nb < max; decr under 1 <= nb <= max <= 2^20", "exactly +1 / -1, no panic, no overflow; accepting resumes iff gate closed and nb' < max*90/100", SV, prop="c16", which="incr_decr"),
+        M("c16_per_ip_track", "whole SessionManager::track_cluster_ip; map/set calls uninterpreted (HashSet::insert answers an arbitrary bool)", "every return is preceded by the reverse-index insert; the forward count is advanced by exactly one, exactly when the insert reported a new triple", SV, prop="c16", which="per_ip_track"),
+        M("c16_per_ip_limit", "effective_max_connections_per_ip, cluster_ip_at_limit and its count-test closure; lookups uninterpreted", "limit = override.unwrap_or(global); limit 0 => false; token already tracked => false; otherwise exactly the count test, which is count >= limit over the resolved limit", SV, prop="c16", which="per_ip_limit"),
+        M("c16_per_ip_gate_call_sites", "whole Router::connect (290 blocks) and TcpSession::connect_to_backend (152 blocks), loops unrolled 2x, callees uninterpreted", "backend selection / connection after the gate only with answer false and after track_cluster_ip; tracking only after an admitting answer; at-limit => Err; same token checked and tracked", SV + ["lib/src/protocol/mux/router.rs", "lib/src/tcp.rs"], prop="c16", which="per_ip_gate"),
     ],
 }
